@@ -31,12 +31,34 @@ class Emission:
         self.builder = builder
         self.node = node
         best = None
+        quants = self._triangular(quants)
+        quants = [(t, re.sub(r"range\(1, (\w+)\.order\(\) \+ 1\)", r"\1.vertices()", d)) for t, d in quants]
         for order in self._orders(list(quants)):
             cand = self._render(order, guards, builder, args)
             if best is None or cand < best:
                 best = cand
         self.quants, self.guards, self.args = [list(x) for x in best]
         self.quants = [tuple(q) for q in self.quants]
+
+    @staticmethod
+    def _triangular(quants):
+        """for a in range(L, H) for b in range(a + 1, H + 1)   ==   for (a, b) in combinations(range(L, H + 1), 2)"""
+        out = []
+        i = 0
+        quants = list(quants)
+        while i < len(quants):
+            if i + 1 < len(quants):
+                (t1, d1), (t2, d2) = quants[i], quants[i + 1]
+                m1 = re.fullmatch(r"range\((.+), (.+)\)", d1)
+                m2 = re.fullmatch(r"range\((.+) \+ 1, (.+)\)", d2)
+                if m1 and m2 and re.fullmatch(r"q\d+", t1) and re.fullmatch(r"q\d+", t2) and m2.group(1) == t1 and \
+                        "," not in m1.group(1) and m2.group(2) == "%s + 1" % m1.group(2):
+                    out.append(("(%s, %s)" % (t1, t2), "combinations(range(%s, %s), 2)" % (m1.group(1), m2.group(2))))
+                    i += 2
+                    continue
+            out.append(quants[i])
+            i += 1
+        return out
 
     @staticmethod
     def _render(quants, guards, builder, args):
@@ -59,9 +81,10 @@ class Emission:
 
         def rn(x):
             return re.sub(r"\bq\d+\b", lambda m: ren.get(m.group(0), m.group(0)), x).replace("#", "q")
-        q = tuple((rn(t), rn(d)) for t, d in quants)
-        g = tuple(sorted({a for x in guards for a in guard_atoms(rn(x))}))
-        a = [rn(x) for x in args]
+        A = canon_arith_text
+        q = tuple((rn(t), A(rn(d))) for t, d in quants)
+        g = tuple(sorted({a for x in guards for a in guard_atoms(A(rn(x)))}))
+        a = [A(rn(x)) for x in args]
         if a and builder not in NO_LITERAL_LIST and " = " not in builder and builder not in ("yield", "return", "yield from"):
             a[0] = canon_literals(a[0])
         return (q, g, tuple(a))
@@ -232,6 +255,161 @@ class _NoLabel(ast.NodeTransformer):
         return n
 
 
+class _GenToList(ast.NodeTransformer):
+    """a generator expression handed to product / sorted / join / add_clause .. yields the same elements as the list display"""
+
+    def visit_GeneratorExp(self, n):
+        self.generic_visit(n)
+        return ast.copy_location(ast.ListComp(elt=n.elt, generators=n.generators), n)
+
+
+def _is_arith_leaf(n):
+    if isinstance(n, ast.Constant):
+        return isinstance(n.value, int) and not isinstance(n.value, bool)
+    if isinstance(n, ast.Name):
+        return True
+    if isinstance(n, ast.Call):
+        f = n.func
+        if isinstance(f, ast.Name) and f.id in ("len", "abs", "int", "min", "max"):
+            return True
+        if isinstance(f, ast.Attribute) and (f.attr in ("order", "number_of_vertices", "number_of_edges", "number_of_variables",
+                                                        "left_order", "right_order", "bit_length") or f.attr.endswith("degree")):
+            return True
+    return False
+
+
+class _Arith(ast.NodeTransformer):
+    """maximal integer-arithmetic subtrees (+, -, *, unary -, with at least one product, negation or integer constant, and leaves
+    that are names, integers, len(..) / order() style calls) are rewritten as a canonical polynomial: `N - d*(k-1)` and
+    `N - d*k + d` get the same text"""
+
+    def _arith(self, n):
+        if isinstance(n, ast.BinOp) and isinstance(n.op, (ast.Add, ast.Sub, ast.Mult)):
+            return self._arith(n.left) and self._arith(n.right)
+        if isinstance(n, ast.UnaryOp) and isinstance(n.op, (ast.USub, ast.UAdd)):
+            return self._arith(n.operand)
+        return _is_arith_leaf(n)
+
+    def _numeric_evidence(self, n):
+        for x in ast.walk(n):
+            if isinstance(x, ast.BinOp) and isinstance(x.op, (ast.Mult, ast.Sub)):
+                return True
+            if isinstance(x, ast.UnaryOp) and isinstance(x.op, ast.USub):
+                return True
+            if isinstance(x, ast.Constant) and isinstance(x.value, int) and not isinstance(x.value, bool):
+                return True
+        return False
+
+    def visit(self, n):
+        if isinstance(n, (ast.BinOp, ast.UnaryOp)) and self._arith(n) and self._numeric_evidence(n) and \
+                not (isinstance(n, ast.UnaryOp) and isinstance(n.operand, (ast.Name, ast.Call))):
+            try:
+                from .ql import to_poly, Unknown
+                atoms = {}
+
+                def leafkey(x):
+                    k = " ".join(ast.unparse(x).split())
+                    atoms[k] = x
+                    return k
+                env = {}
+                # calls are atoms keyed by their text
+                for x in ast.walk(n):
+                    if isinstance(x, ast.Call):
+                        env[leafkey(x)] = None
+                from .ql import Poly
+                penv = {k: Poly.sym(k) for k in env}
+                poly = to_poly(n, penv)
+                txt = _poly_text(poly)
+                return ast.copy_location(ast.parse(txt, mode="eval").body, n)
+            except Exception:
+                pass
+        return self.generic_visit(n)
+
+
+def _poly_text(poly):
+    terms = []
+    for mono, c in poly.t.items():
+        atoms = []
+        for sym, pw in mono:
+            atoms += [sym] * pw
+        terms.append((sorted(atoms), c))
+    terms.sort(key=lambda t: (len(t[0]) == 0, t[0]))
+    if not terms:
+        return "0"
+    out = ""
+    for i, (atoms, c) in enumerate(terms):
+        body = " * ".join(atoms)
+        mag = abs(c)
+        piece = body if (mag == 1 and body) else (("%d * %s" % (mag, body)) if body else "%d" % mag)
+        if i == 0:
+            out = piece if c > 0 else "-" + piece
+        else:
+            out += (" + " if c > 0 else " - ") + piece
+    return out
+
+
+class _InlineCalls(ast.NodeTransformer):
+    """calls of a local pure function (assignments followed by one return) are replaced by the returned expression"""
+
+    def __init__(self, pure):
+        self.pure = pure
+
+    def visit_Call(self, n):
+        self.generic_visit(n)
+        if isinstance(n.func, ast.Name) and n.func.id in self.pure and not n.keywords:
+            params, expr = self.pure[n.func.id]
+            if len(params) == len(n.args):
+                return _Subst(dict(zip(params, n.args))).visit(copy.deepcopy(expr))
+        return n
+
+
+class _SignCase(ast.NodeTransformer):
+    """[E(v) for v in D] where E is integer arithmetic that looks at the sign of v (abs(v), v // abs(v), `.. if v > 0 else ..`):
+    E is replaced by its two sign cases as polynomials in a = |v|, so that `sign * (X0 + abs(v) - 1)` and
+    `v + (X0 - 1) if v > 0 else v - (X0 - 1)` get the same text `_lit(a + X0 - 1 | -a - X0 + 1)`"""
+
+    def visit_ListComp(self, n):
+        self.generic_visit(n)
+        if len(n.generators) != 1 or not isinstance(n.generators[0].target, ast.Name) or n.generators[0].ifs:
+            return n
+        v = n.generators[0].target.id
+        e = n.elt
+        looks = any((isinstance(x, ast.Call) and isinstance(x.func, ast.Name) and x.func.id == "abs" and x.args and src(x.args[0]) == v)
+                    or (isinstance(x, ast.Compare) and v in (src(x.left), src(x.comparators[0])) and "0" in (src(x.left), src(x.comparators[0])))
+                    for x in ast.walk(e))
+        if not looks:
+            return n
+        try:
+            from .litarith import Ctx, sym_eval
+            from .ql import Poly, Unknown
+            env = {}
+            for x in ast.walk(e):
+                if isinstance(x, (ast.Subscript, ast.Attribute)) or (isinstance(x, ast.Call) and not (isinstance(x.func, ast.Name) and x.func.id == "abs")):
+                    k = " ".join(ast.unparse(x).split())
+                    env.setdefault(k, Poly.sym(k))
+            polys = []
+            for sgn in (1, -1):
+                ctx = Ctx(v, sgn, env)
+                ctx.asym = "_abs"
+                polys.append(ast.parse(_poly_text(sym_eval(e, ctx)), mode="eval").body)
+            tok = ast.Call(func=ast.Name(id="_lit", ctx=ast.Load()), args=polys, keywords=[])
+            n.elt = tok
+            return ast.fix_missing_locations(n)
+        except Exception:
+            return n
+
+
+def canon_arith_text(text):
+    """canonical arithmetic inside an (already renamed) expression text; text that is not an expression is returned unchanged"""
+    try:
+        e = ast.parse(text, mode="eval").body
+    except SyntaxError:
+        return text
+    e = _Arith().visit(e)
+    ast.fix_missing_locations(e)
+    return src(e)
+
+
 class _CompRename(ast.NodeTransformer):
     """rename comprehension-bound variables to c0, c1, .. in order of binding"""
 
@@ -255,12 +433,17 @@ class _CompRename(ast.NodeTransformer):
     visit_ListComp = visit_GeneratorExp = visit_SetComp = visit_DictComp = _comp
 
 
-def norm(expr, inline, rename):
+def norm(expr, inline, rename, pure=None):
     e = copy.deepcopy(expr)
     for _ in range(4):
         e2 = _Subst(inline).visit(e)
         e = e2
+    if pure:
+        e = _InlineCalls(pure).visit(e)
+        e = _Subst(inline).visit(e)
     e = _Strip().visit(e)
+    e = _SignCase().visit(e)
+    e = _GenToList().visit(e)
     e = _NoLabel().visit(e)
     e = _Subst(rename).visit(e)
     e = _CompRename().visit(e)
@@ -371,6 +554,18 @@ class Extractor:
             sig[name] = ("%s(%s)" % (v.func.attr, ", ".join(args)), getattr(v, "lineno", 0))
         for i, name in enumerate(sorted(sig, key=lambda n: sig[n])):
             self.rename[name] = "g%d" % i
+        # local pure functions: only single assignments and one return
+        self.pure = {}
+        for st in self.fnode.body:
+            if isinstance(st, ast.FunctionDef) and st.body and isinstance(st.body[-1], ast.Return) and st.body[-1].value is not None and \
+                    all(isinstance(b, ast.Assign) and len(b.targets) == 1 and isinstance(b.targets[0], ast.Name) for b in st.body[:-1]) and \
+                    not st.args.vararg and not st.args.kwarg and not st.args.defaults:
+                loc = {}
+                expr = st.body[-1].value
+                for b in st.body[:-1]:
+                    loc[b.targets[0].id] = _Subst(dict(loc)).visit(copy.deepcopy(b.value))
+                expr = _Subst(loc).visit(copy.deepcopy(expr))
+                self.pure[st.name] = ([a.arg for a in st.args.args], expr)
 
     # ------------------------------------------------------------------
     MUTATORS = ("append", "extend", "insert", "pop", "remove", "sort", "add", "update", "reverse", "clear")
@@ -478,7 +673,7 @@ class Extractor:
         ren = dict(self.rename)
         ren.update(local)
         inl = {k: v for k, v in self.inline.items() if k not in local}
-        return norm(e, inl, ren)
+        return norm(e, inl, ren, getattr(self, "pure", None))
 
     def _bind_target(self, target, local):
         local = dict(local)
@@ -499,6 +694,28 @@ class Extractor:
                     self._built[id(s)] = {}
             if isinstance(s, ast.For):
                 dom = s.iter
+                if isinstance(dom, ast.Name) and dom.id in self.inline and dom.id not in local:
+                    dom = self.inline[dom.id]
+                # for i, x in enumerate(S[, start=k])  ==  for i in range(k, len(S) + k) with x = S[i - k]
+                if isinstance(dom, ast.Call) and call_name(dom) == "enumerate" and dom.args and isinstance(s.target, ast.Tuple) and \
+                        len(s.target.elts) == 2 and all(isinstance(t, ast.Name) for t in s.target.elts):
+                    start = 0
+                    for k in dom.keywords:
+                        if k.arg == "start" and isinstance(const(k.value), int):
+                            start = const(k.value)
+                    if len(dom.args) == 2 and isinstance(const(dom.args[1]), int):
+                        start = const(dom.args[1])
+                    seq = dom.args[0]
+                    iname, xname = s.target.elts[0].id, s.target.elts[1].id
+                    rng = ast.parse("range(%d, len(_S_) + %d)" % (start, start) if start else "range(len(_S_))", mode="eval").body
+                    rng = _Subst({"_S_": seq}).visit(rng)
+                    dtext = self._n(rng, local)
+                    loc = self._bind_target(s.target.elts[0], local)
+                    idx = ast.parse("_S_[%s - %d]" % (iname, start) if start else "_S_[%s]" % iname, mode="eval").body
+                    idx = _Subst({"_S_": seq}).visit(idx)
+                    loc[xname] = ast.parse(self._n(idx, loc), mode="eval").body if _parses(self._n(idx, loc)) else xname
+                    self._block(s.body, quants + [(self._n(s.target.elts[0], loc), dtext)], guards, loc)
+                    continue
                 # product(A, B, ..) with a tuple target of the same arity -> independent quantifiers
                 if isinstance(dom, ast.Call) and call_name(dom) in ("product", "itertools.product") and not dom.keywords and \
                         isinstance(s.target, ast.Tuple) and len(s.target.elts) == len(dom.args):
@@ -545,12 +762,23 @@ class Extractor:
         if not body or not (isinstance(body[0], ast.Assign) and len(body[0].targets) == 1 and src(body[0].targets[0]) == name):
             return None
         v = body[0].value
-        parts = [] if (isinstance(v, ast.List) and not v.elts) else [self._n(v, local)]
+        empty = isinstance(v, ast.List) and not v.elts
+        parts = [] if empty else [self._n(v, local)]
+        concat = [] if empty else [self._n(v, local)]
+        straight = True
         for b in body[1:]:
             t = self._build_text(b, name, local)
             if t is None:
                 return None
             parts += t
+            if t:
+                c = self._straight(b, name, local)
+                if c is None:
+                    straight = False
+                else:
+                    concat.append(c)
+        if straight and concat:
+            return canon_literals(" + ".join(concat))
         return "; ".join(parts)
 
     def _built_lists(self, stmts, upto, local):
@@ -606,10 +834,19 @@ class Extractor:
             while isinstance(b, ast.If) and not b.orelse and len(b.body) == 1:
                 ifs.append(b.test)
                 b = b.body[0]
-            if isinstance(b, ast.Expr) and isinstance(b.value, ast.Call) and isinstance(b.value.func, ast.Attribute) and \
-                    src(b.value.func.value) == name and b.value.func.attr == "append" and len(b.value.args) == 1 and \
-                    not any(isinstance(n, ast.Name) and n.id == name for n in ast.walk(b.value.args[0])):
-                comp = ast.ListComp(elt=b.value.args[0], generators=[ast.comprehension(target=s.target, iter=s.iter, ifs=ifs, is_async=0)])
+            def appended(x):
+                if isinstance(x, ast.Expr) and isinstance(x.value, ast.Call) and isinstance(x.value.func, ast.Attribute) and \
+                        src(x.value.func.value) == name and x.value.func.attr == "append" and len(x.value.args) == 1 and \
+                        not any(isinstance(n, ast.Name) and n.id == name for n in ast.walk(x.value.args[0])):
+                    return x.value.args[0]
+                return None
+            elt = appended(b)
+            if elt is None and isinstance(b, ast.If) and len(b.body) == 1 and len(b.orelse) == 1 and \
+                    appended(b.body[0]) is not None and appended(b.orelse[0]) is not None:
+                # if c: L.append(a) else: L.append(b)   ==   L.append(a if c else b)
+                elt = ast.IfExp(test=b.test, body=appended(b.body[0]), orelse=appended(b.orelse[0]))
+            if elt is not None:
+                comp = ast.ListComp(elt=elt, generators=[ast.comprehension(target=s.target, iter=s.iter, ifs=ifs, is_async=0)])
                 return self._n(ast.fix_missing_locations(ast.copy_location(comp, s)), local)
         return None
 
